@@ -223,3 +223,142 @@ pub fn bounded_plain(seed: u64, obs: &mut Obs) -> V {
     }
     Ok(())
 }
+
+
+/// keys that own something, values that do not (the drop-counting element types of the main histories always pair a
+/// droppable key with a droppable value); every key instance is dropped exactly once
+pub fn hashmap_droppy_keys(seed: u64, obs: &mut Obs) -> V {
+    use std::cell::RefCell;
+    use std::rc::Rc;
+    #[derive(Debug)]
+    struct CK(u64, u64, Rc<RefCell<Vec<i32>>>);
+    impl Drop for CK {
+        fn drop(&mut self) {
+            self.2.borrow_mut()[self.1 as usize] += 1;
+        }
+    }
+    impl PartialEq for CK {
+        fn eq(&self, o: &Self) -> bool {
+            self.0 == o.0
+        }
+    }
+    impl Eq for CK {}
+    impl std::hash::Hash for CK {
+        fn hash<H: std::hash::Hasher>(&self, h: &mut H) {
+            self.0.hash(h)
+        }
+    }
+    let drops: Rc<RefCell<Vec<i32>>> = Rc::new(RefCell::new(Vec::new()));
+    let mk = |k: u64| -> CK {
+        let mut d = drops.borrow_mut();
+        d.push(0);
+        CK(k, d.len() as u64 - 1, drops.clone())
+    };
+    let mut rng = Prng::new(seed ^ 0xd0a9);
+    {
+        let mut map: CaoHashMap<CK, i64> = match CaoHashMap::with_capacity_in(*rng.pick(&[0usize, 1, 8]), SysAllocator) {
+            Ok(m) => m,
+            Err(e) => return fail("plain:with_capacity", format!("{e:?}")),
+        };
+        let mut model: BTreeMap<u64, i64> = BTreeMap::new();
+        let universe = rng.range(3, 20) as u64;
+        for step in 0..rng.range(10, if cfg!(miri) { 25 } else { 80 }) {
+            let k = rng.next_u64() % universe;
+            let v = rng.range(-50, 50);
+            match rng.weighted(&[30, 10, 4]) {
+                0 => {
+                    // (inserting a key that is present replaces key and value: the old key instance is dropped)
+                    if map.insert(mk(k), v).is_err() {
+                        return fail("plain:droppy:insert:error", format!("step {step}"));
+                    }
+                    model.insert(k, v);
+                }
+                1 => {
+                    let probe = mk(k);
+                    let got = map.remove(&probe);
+                    if got != model.remove(&k) {
+                        return fail("plain:droppy:remove:result", format!("step {step}: remove({k}) = {got:?}"));
+                    }
+                }
+                _ => {
+                    map.clear();
+                    model.clear();
+                }
+            }
+            if map.len() != model.len() {
+                return fail("plain:droppy:len", format!("step {step}: len {} , model says {}", map.len(), model.len()));
+            }
+            // every key instance that is not in the map any more has been dropped exactly once by now
+            let live: usize = map.len();
+            let d = drops.borrow();
+            let dropped = d.iter().filter(|c| **c == 1).count();
+            let over = d.iter().filter(|c| **c > 1).count();
+            if over > 0 {
+                return fail("plain:droppy:double-drop", format!("step {step}: {over} key instances were dropped more than once"));
+            }
+            if dropped + live != d.len() {
+                return fail("plain:droppy:key-not-dropped", format!("step {step}: {} key instances were created, {live} are in the map, {dropped} were dropped: {} are gone without having been dropped", d.len(), d.len() - live - dropped));
+            }
+            obs.inc("plain:droppy_key_ops");
+        }
+    }
+    let d = drops.borrow();
+    if let Some(i) = d.iter().position(|c| *c != 1) {
+        return fail("plain:droppy:drop-count", format!("after the map was dropped, key instance #{i} has been dropped {} times", d[i]));
+    }
+    Ok(())
+}
+
+/// keys whose alignment is larger than that of the hash array's elements
+pub fn hashmap_overaligned(seed: u64, obs: &mut Obs) -> V {
+    #[derive(Debug, Clone, Copy, PartialEq, Eq, Hash, PartialOrd, Ord)]
+    #[repr(align(32))]
+    struct Wide(u64);
+    let mut rng = Prng::new(seed ^ 0xa119);
+    let mut a: CaoHashMap<u128, u8> = match CaoHashMap::with_capacity_in(*rng.pick(&[0usize, 1, 3, 8]), SysAllocator) {
+        Ok(m) => m,
+        Err(e) => return fail("plain:with_capacity", format!("{e:?}")),
+    };
+    let mut b: CaoHashMap<Wide, u16> = match CaoHashMap::with_capacity_in(*rng.pick(&[0usize, 1, 3, 8]), SysAllocator) {
+        Ok(m) => m,
+        Err(e) => return fail("plain:with_capacity", format!("{e:?}")),
+    };
+    let mut ma: BTreeMap<u128, u8> = BTreeMap::new();
+    let mut mb: BTreeMap<Wide, u16> = BTreeMap::new();
+    for step in 0..rng.range(5, if cfg!(miri) { 20 } else { 60 }) {
+        let k = rng.next_u64() % 30;
+        let v = rng.below(200) as u8;
+        if rng.chance(3, 4) {
+            if a.insert((k as u128) << 70 | k as u128, v).is_err() || b.insert(Wide(k), v as u16).is_err() {
+                return fail("plain:overaligned:insert:error", format!("step {step}"));
+            }
+            ma.insert((k as u128) << 70 | k as u128, v);
+            mb.insert(Wide(k), v as u16);
+        } else {
+            let ga = a.remove(&((k as u128) << 70 | k as u128));
+            let gb = b.remove(&Wide(k));
+            if ga != ma.remove(&((k as u128) << 70 | k as u128)) || gb != mb.remove(&Wide(k)) {
+                return fail("plain:overaligned:remove:result", format!("step {step}: remove({k})"));
+            }
+        }
+        let mut la: Vec<(u128, u8)> = a.iter().map(|(k, v)| (*k, *v)).collect();
+        la.sort();
+        let mut lb: Vec<(Wide, u16)> = b.iter().map(|(k, v)| (*k, *v)).collect();
+        lb.sort();
+        if la != ma.iter().map(|(k, v)| (*k, *v)).collect::<Vec<_>>() || lb != mb.iter().map(|(k, v)| (*k, *v)).collect::<Vec<_>>() {
+            return fail("plain:overaligned:contents", format!("step {step}: contents differ from the model"));
+        }
+        for (k, _) in a.iter() {
+            if (k as *const u128 as usize) % std::mem::align_of::<u128>() != 0 {
+                return fail("plain:overaligned:misaligned-key", format!("step {step}: a u128 key lives at {:p}", k));
+            }
+        }
+        for (k, _) in b.iter() {
+            if (k as *const Wide as usize) % 32 != 0 {
+                return fail("plain:overaligned:misaligned-key", format!("step {step}: a 32-byte aligned key lives at {:p}", k));
+            }
+        }
+        obs.inc("plain:overaligned_ops");
+    }
+    Ok(())
+}
